@@ -248,6 +248,44 @@ class Inliner:
                         setattr(s, field, handle(sub))
                 for h in getattr(s, 'handlers', []) or []:
                     h.body = handle(h.body)
+                if isinstance(s, (ast.Assign, ast.Expr, ast.Return, ast.AugAssign)) and s.value is not None:
+                    # a call of a new helper nested in the statement's expression, at a position that is always evaluated:
+                    # hoisted into a temporary in front of the statement, then treated like a stand-alone call
+                    top = s.value if isinstance(s.value, ast.Call) else None
+                    hoisted = []
+
+                    class H(ast.NodeTransformer):
+                        def visit_Lambda(self, n):
+                            return n
+
+                        def visit_ListComp(self, n):
+                            return n
+                        visit_SetComp = visit_DictComp = visit_GeneratorExp = visit_ListComp
+
+                        def visit_IfExp(self, n):
+                            n.test = self.visit(n.test)
+                            return n
+
+                        def visit_BoolOp(self, n):
+                            n.values[0] = self.visit(n.values[0])
+                            return n
+
+                        def visit_Call(self, n):
+                            self.generic_visit(n)
+                            if n is top:
+                                return n
+                            callee, _sn = me.resolve(fi, n)
+                            if callee is not None and callee.qual in me.new and callee.qual != fi.qual and callee.qual not in stack \
+                                    and me.inlinable(callee) is None:
+                                me.counter += 1
+                                tmp = '__h%d' % me.counter
+                                hoisted.append(ast.copy_location(ast.Assign(targets=[ast.Name(id=tmp, ctx=ast.Store())], value=n), s))
+                                return ast.copy_location(ast.Name(id=tmp, ctx=ast.Load()), n)
+                            return n
+                    s.value = H().visit(s.value)
+                    if hoisted:
+                        changed[0] = True
+                        out.extend(handle(hoisted))
                 call = None
                 kind = None
                 if isinstance(s, ast.Assign) and isinstance(s.value, ast.Call):
